@@ -113,13 +113,12 @@ class Ctx:
     # ---------------------------------------------------------------- Coq
     def coq_make(self, targets, timeout=3000):
         """Build .vo targets (paths relative to coq/) with the project Makefile, serialised by a lock."""
-        sh([os.path.join(VERIF, 'bin', 'mkcoqproject')])
         if self.tier == 'thorough':
             for t in targets:
                 for ext in ('.vo', '.glob', '.vok', '.vos'):
                     try: os.remove(os.path.join(COQ, t[:-3] + ext))
                     except OSError: pass
-        cmd = 'flock %s/.coqlock timeout %d make -k -j16 %s' % (BUILD, timeout, ' '.join(targets))
+        cmd = "flock %s/.coqlock sh -c '%s/bin/mkcoqproject; timeout %d make -k -j16 %s'" % (BUILD, VERIF, timeout, ' '.join(targets))
         rc, out, err = sh(cmd, cwd=COQ, timeout=timeout + 60)
         built = [t for t in targets if os.path.exists(os.path.join(COQ, t)) and
                  os.path.getmtime(os.path.join(COQ, t)) >= os.path.getmtime(os.path.join(COQ, t[:-1]))]
